@@ -16,8 +16,13 @@ package lang
 //@   slots fn.Blocks[bi].Instrs[ii] world ssa.Instruction except Store.Addr, MapUpdate.Map, Send.Chan, DebugRef.X
 //@     assume reads: val != nil && $slot == val
 //@   ensures reads_complete: result
+//@   ghost si int
 //@   loop 1 invariant bi >= iter(1)
 //@   loop 2 invariant bi == iter(1) ==> ii >= iter(2)
+//@   loop 3 invariant bi == iter(1) && ii == iter(2) ==> si >= iter(3)
+//@   loop 4 invariant bi == iter(1) && ii == iter(2) ==> si >= iter(4)
+//@   loop 5 invariant bi == iter(1) && ii == iter(2) ==> si >= iter(5)
+//@   loop 6 invariant bi == iter(1) && ii == iter(2) ==> si >= iter(6)
 
 //@ func FnWritesTo
 //@   property C05
@@ -30,3 +35,11 @@ package lang
 //@   ensures writes_complete: result
 //@   loop 1 invariant bi >= iter(1)
 //@   loop 2 invariant bi == iter(1) ==> ii >= iter(2)
+
+//@ func callCommonReadsFrom
+//@   property C05
+//@   requires call != nil
+//@   ensures value: call.Value == val ==> result
+//@   ensures args: forall i int :: 0 <= i && i < len(call.Args) && call.Args[i] == val ==> result
+//@   modifies nothing
+//@   loop 1 invariant forall j int :: 0 <= j && j < iter(1) ==> call.Args[j] != val
